@@ -99,9 +99,23 @@ Init == /\ acc = SeedAcc /\ val = SeedVal /\ wq = <<>>
 Rec(name, a, v, d, s, r, h) == [op |-> name, a |-> a, v |-> v, d |-> d, s |-> s, r |-> r, h |-> h]
 \* generated behaviours start with a write (control points on the untouched starting state say nothing)
 ControlOps == {"Root", "Commit", "Reload", "Copy", "CopySwap", "Finalise", "Flush", "GC", "Restart", "ReloadOld"}
-Tick(r) == /\ Len(hist) < MaxOps /\ ~failed
-           /\ (GenMode = "leaf" /\ Len(hist) = 0) => r.op \notin ControlOps
-           /\ hist' = Append(hist, r)
+\* ---- alphabets whose behaviours start with a fixed prelude executed by the model itself
+DynPrelude == CASE Alpha = "slots" -> <<Rec("SetState", 1, 0, 5, 1, 0, 0), Rec("AddBalance", 2, 0, 1, 0, 0, 0), Rec("Commit", 0, 0, 0, 0, 0, 0)>>
+                [] Alpha = "old"   -> <<Rec("AddBalance", 2, 0, 1, 0, 0, 0), Rec("Commit", 0, 0, 0, 0, 0, 0)>>
+                [] Alpha = "recs2" -> <<Rec("AddRecord", 0, 1, -1, 0, 0, 1), Rec("AddRecord", 0, 1, -1, 0, 0, 2), Rec("AddRecord", 0, 1, -1, 0, 0, 1)>>
+                [] Alpha = "blind" -> <<Rec("CreateValidator", 0, 1, 15, 0, 0, 0), Rec("AddBalance", 2, 0, 1, 0, 0, 0), Rec("Reload", 0, 0, 0, 0, 0, 0)>>
+                [] OTHER -> <<>>
+InPrelude == Len(hist) < Len(DynPrelude)
+\* Reads are not neutral in this code base (lazy caches).  A generated operation carries a flag b; b = 1 ("blind") tells the
+\* driver to take NO dump at that step.  Blind steps come in pairs: CopySwap taken on a clean object, immediately followed by
+\* Reload (commit of the copy, reopen): only the reopened copy and -- afterwards -- the original are read.
+\* The flag does not exist in the model's state.
+TickB(r, B) == /\ Len(hist) < MaxOps /\ ~failed
+               /\ (GenMode = "leaf" /\ Len(hist) = 0) => r.op \notin ControlOps
+               /\ \E x \in B : hist' = Append(hist, r @@ [b |-> x])
+Tick(r) == TickB(r, {0})
+LastBlindCopy == /\ Len(hist) > 0 /\ hist[Len(hist)].op = "CopySwap"
+                 /\ "b" \in DOMAIN hist[Len(hist)] /\ hist[Len(hist)].b = 1
 
 Write == clean' = "" /\ copyOk' = TRUE /\ UNCHANGED <<tries, blobs, failed, unex, zomb, node, aux>>
 Touch(a) == nod' = nod \ {a}      \* a journal entry: the next Finalise puts the object into stateObjectsDirty again
@@ -249,7 +263,7 @@ ReadableP == \A a \in Accts : /\ (tacc'[a].code = 0 \/ tacc'[a].code \in blobs'.
                               /\ (tacc'[a].to = {} \/ tacc'[a].to \in blobs'.dl)
                               /\ ((tacc'[a].s1 = 0 /\ tacc'[a].s2 = 0) \/ <<tacc'[a].s1, tacc'[a].s2>> \in blobs'.st)
 Reload ==
-   /\ Tick(Rec("Reload", 0, 0, 0, 0, 0, 0))
+   /\ TickB(Rec("Reload", 0, 0, 0, 0, 0, 0), IF LastBlindCopy THEN {1} ELSE {0})
    /\ CommitEffect
    /\ clean' = "commit" /\ copyOk' = TRUE
    /\ failed' = ~ReadableP
@@ -307,8 +321,9 @@ ReRead(a) ==
    ELSE LET stOk == (acc[a].s1 = 0 /\ acc[a].s2 = 0) \/ <<acc[a].s1, acc[a].s2>> \in blobs.st IN
         [acc[a] EXCEPT !.code = IF @ = 0 \/ @ \in blobs.code THEN @ ELSE 0,
                        !.s1 = IF stOk THEN @ ELSE 0, !.s2 = IF stOk THEN @ ELSE 0]
+BlindGen == GenMode = "leaf" /\ Alpha \in {"blind", "rich"}
 CopyStep(name) ==
-   /\ Tick(Rec(name, 0, 0, 0, 0, 0, 0))
+   /\ TickB(Rec(name, 0, 0, 0, 0, 0, 0), IF name = "CopySwap" /\ BlindGen /\ clean # "" /\ Len(hist) >= Len(DynPrelude) THEN {0, 1} ELSE {0})
    /\ copyOk' = (CopyReadable /\ \A a \in Accts : ReRead(a) = acc[a])
    /\ failed' = (name = "CopySwap" /\ ~CopyReadable)      \* nothing sensible can follow on an unreadable copy
    /\ acc' = IF name = "CopySwap" THEN [a \in Accts |-> ReRead(a)] ELSE acc
@@ -347,19 +362,17 @@ NextDeleg2 ==    \* a delegator with two delegations: full withdrawals and re-de
 NextDisk ==      \* what reaches the disk: code, storage, delegation list of an account with and without code, validator and staking tries
    \/ SetCode(1, 1) \/ SetState(1, 1, 5) \/ Delegate(1, 7) \/ AddRecord(0, 1, 1, 9)
    \/ Commit \/ Flush \/ GC \/ Restart
-\* ---- alphabets whose behaviours start with a fixed prelude executed by the model itself
-DynPrelude == CASE Alpha = "slots" -> <<Rec("SetState", 1, 0, 5, 1, 0, 0), Rec("AddBalance", 2, 0, 1, 0, 0, 0), Rec("Commit", 0, 0, 0, 0, 0, 0)>>
-                [] Alpha = "old"   -> <<Rec("AddBalance", 2, 0, 1, 0, 0, 0), Rec("Commit", 0, 0, 0, 0, 0, 0)>>
-                [] Alpha = "recs2" -> <<Rec("AddRecord", 0, 1, -1, 0, 0, 1), Rec("AddRecord", 0, 1, -1, 0, 0, 2), Rec("AddRecord", 0, 1, -1, 0, 0, 1)>>
-                [] OTHER -> <<>>
-InPrelude == Len(hist) < Len(DynPrelude)
 PreludeStep ==
    LET p == DynPrelude[Len(hist) + 1] IN
    CASE p.op = "SetState"   -> SetState(p.a, p.s, p.d)
      [] p.op = "AddBalance" -> AddBalance(p.a, p.d)
      [] p.op = "AddRecord"  -> AddRecord(p.a, p.v, p.h, p.d)
      [] p.op = "Commit"     -> Commit
+     [] p.op = "Reload"     -> Reload
+     [] p.op = "CreateValidator" -> CreateValidator(p.v, p.d)
      [] OTHER -> FALSE
+NextBlind ==     \* a freshly loaded state copied and the copy committed, with and without reads in between
+   \/ CopyStep("CopySwap") \/ Reload \/ Commit \/ Root \/ Deposit(1, 7)
 NextSlots ==     \* storage writes grouped by transaction ends (Finalise) and block ends: a slot with a committed non-zero original
                  \* (account 1 slot 1 = 5) and a fresh slot (account 2 slot 1), values {original, other, zero}, write-backs
    \/ \E x \in {0, 5, 6} : SetState(1, 1, x)
@@ -387,8 +400,8 @@ NextRich ==
    \/ \E a \in {0, 1}, v \in Vals, h \in {1, 2}, d \in {-1, 4} : AddRecordOther(a, v, h, d)
 
 Next == /\ Bounded
-        /\ IF InPrelude THEN PreludeStep ELSE
-           CASE Alpha = "acct" -> NextAcct [] Alpha = "macct" -> (NextAcct \/ Reload) [] Alpha = "val" -> NextVal [] Alpha = "recs" -> NextRecs [] Alpha = "disk" -> NextDisk [] Alpha = "deleg2" -> NextDeleg2
+        /\ IF InPrelude THEN PreludeStep ELSE IF LastBlindCopy THEN Reload ELSE
+           CASE Alpha = "blind" -> NextBlind [] Alpha = "acct" -> NextAcct [] Alpha = "macct" -> (NextAcct \/ Reload) [] Alpha = "val" -> NextVal [] Alpha = "recs" -> NextRecs [] Alpha = "disk" -> NextDisk [] Alpha = "deleg2" -> NextDeleg2
              [] Alpha = "slots" -> NextSlots [] Alpha = "old" -> NextOld [] Alpha = "recs2" -> NextRecs2 [] OTHER -> NextRich
 Spec == Init /\ [][Next]_vars
 
